@@ -15,7 +15,8 @@ RULE = ('trees = everything the three parsers accept from the corpus + generated
         'Snowflake} x {fallback on, off} x {get_string, get_exec_params}; non-trivial = tree SQLAlchemy cannot render, or a CREATE TABLE; '
         'distinct by (statement text, dialect name, flags)')
 RULE += '; also: INSERT rows of mismatched length, placeholders (with alias) in every position, FROM-argument functions, the fallback text itself, the two names of one dialect'
-ASSUMPTIONS = ['"supported dialect names" are the keys of the renderer\'s own table', 'tree mutation is judged on the reflective struct, not on to_tree()']
+ASSUMPTIONS = ['"supported dialect names" are the keys of the renderer\'s own table', 'tree mutation is judged on the reflective struct, not on to_tree()',
+               "\"the tree's own SQL string\": for the two PostgreSQL names the library hands out that string with its back-quotes removed; that adaptation is accepted for those two names only"]
 BUDGET = {'quick': (16, 240), 'thorough': (16, 1800)}
 NAMES = ['mysql', 'postgresql', 'postgres', 'sqlite', 'mssql', 'oracle', 'Snowflake']
 
@@ -24,6 +25,28 @@ CAST_TYPES = ['int', 'integer', 'bigint', 'smallint', 'float', 'real', 'double',
               'timestamp', 'time', 'boolean', 'bool', 'json', 'blob', 'binary', 'signed', 'unsigned', 'int8', 'float8', 'foo']
 EXTRA = [f'select cast(a as {ty}{arg}) as c, {"b::" + ty if not arg else "b"} from t' for ty in CAST_TYPES for arg in ('', '(10)', '(10,2)', '(10, 2)')] + [
     'select cast(a as float(10,2)), cast(b as float(10,2)), cast(cast(c as decimal(12,4)) as varchar(30)) from t',
+    # what the renderer cannot compile (so that, by default, the tree's own printer answers) together with clauses whose spelling the
+    # nodes keep as typed: lower / mixed-case keywords, NULLS rules, directions, DISTINCT, modes
+    'select cast(a as foo), b from t order by b nulls first',
+    'select cast(a as foo), b from t order by b desc Nulls Last, a asc',
+    'select cast(a as foo), b from t group by b having count(*) > 1 order by b Desc',
+    'select cast(a as foo), b from t limit 2 offset 1 for update',
+    'select count(a, b) as n from t order by b nulls first',
+    'select count(a, b) as n from t order by b desc Nulls Last, a asc',
+    'select count(a, b) as n from t group by b having count(*) > 1 order by b Desc',
+    'select count(a, b) as n from t limit 2 offset 1 for update',
+    'select ? as p, b from t order by b nulls first',
+    'select ? as p, b from t order by b desc Nulls Last, a asc',
+    'select ? as p, b from t group by b having count(*) > 1 order by b Desc',
+    'select ? as p, b from t limit 2 offset 1 for update',
+    'select t1.a from t1 right join t2 on t1.x = t2.x order by b nulls first',
+    'select t1.a from t1 right join t2 on t1.x = t2.x order by b desc Nulls Last, a asc',
+    'select t1.a from t1 right join t2 on t1.x = t2.x group by b having count(*) > 1 order by b Desc',
+    'select t1.a from t1 right join t2 on t1.x = t2.x limit 2 offset 1 for update',
+    'select a from t where (a, b) in ((1, 2), (3, 4)) order by b nulls first',
+    'select a from t where (a, b) in ((1, 2), (3, 4)) order by b desc Nulls Last, a asc',
+    'select a from t where (a, b) in ((1, 2), (3, 4)) group by b having count(*) > 1 order by b Desc',
+    'select a from t where (a, b) in ((1, 2), (3, 4)) limit 2 offset 1 for update',
     'select cast(a as foo) from t', 'select count(a, b) from t', 'select a from t where (a, b) in ((1, 2), (3, 4))',
     'select a between 1 and (1, 2) from t', 'select * from t limit 5 offset 2', 'select cast(a as json) from t',
     'create table t (a serial, b int(11), c varchar(20), d date(3), e bigint(20) default x)', 'create table t (id serial)',
@@ -179,7 +202,8 @@ def run_shard(ctx):
                         try:
                             own = tree.copy().to_string()
                             got = r.get_string(tree.copy(), with_failback=True)
-                            if got not in (own, own.replace('`', '')):
+                            # (for the two PostgreSQL names the library removes the back-quotes from its own text: assumption below)
+                            if got != own and not (name in ('postgresql', 'postgres') and got == own.replace('`', '')):
                                 acc.fail({'kind': 'fallback-is-not-the-trees-own-sql', 'statement': type(tree).__name__},
                                          {'text': text[:300], 'render_dialect': name, 'fallback_result': got[:300], 'own_sql': own[:300]})
                         except Exception:
